@@ -318,3 +318,45 @@ def section_flag_oracles(out, rng, thorough):
         out.case("uprp-words", bytes([a, b, c]))
         if got != (a % 64, b % 128, c % 64):
             out.violations.append({"oracle": "CUWP flag words survive the UPRP transcoder (each word independently)", "words": [a, b, c], "got": got})
+    # every valid-unit-properties word in the slot shapes editors write: alone, and with 100 % / other percentages
+    for w in range(128):
+        for hp in ((0, 0, 0), (100, 100, 100), (1, 100, 0)):
+            for special in (0, 31):
+                if w == 0 and special == 0 and hp == (0, 0, 0):
+                    continue        # the all-zero record is the placeholder
+                slot = DecodedCuwpSlot(special, w, 0, hp[0], hp[1], hp[2], 0, 0, 0, 0)
+                sec = DecodedUprpSection(_cuwp_slots=[DecodedCuwpSlot(0, 0, 0, 0, 0, 0, 0, 0, 0, 0)] * 5 + [slot] + [DecodedCuwpSlot(0, 0, 0, 0, 0, 0, 0, 0, 0, 0)] * 58)
+                try:
+                    s2 = tc.encode(tc.decode(sec, None), None).cuwp_slots[5]
+                    got = (s2.valid_special_properties_flags, s2.valid_unit_properties_flags, s2.hitpoints_percentage, s2.shieldpoints_percentage, s2.energypoints_percentage)
+                except Exception as ex:  # noqa: BLE001
+                    got = "ERR " + err_class(ex)
+                out.case("uprp-valid-unit-word", bytes([w, special, hp[0]]))
+                if got != (special, w, hp[0], hp[1], hp[2]):
+                    out.violations.append({"oracle": "a valid-unit-properties word survives the UPRP transcoder in every slot shape (only the all-zero record is a placeholder)",
+                                           "word": w, "valid_special": special, "percentages": hp, "got": got})
+                    break
+    # the 27 "executed for player / group" bytes of a trigger: number i is byte i, in both directions
+    try:
+        from richchk.model.chk.trig.decoded_player_execution import DecodedPlayerExecution
+        from richchk.model.chk.trig.decoded_trig_section import DecodedTrigSection
+        from richchk.model.chk.trig.decoded_trigger import DecodedTrigger
+        from richchk.transcoder.richchk.transcoders.richchk_trig_transcoder import RichChkTrigTranscoder
+        import trig_h
+
+        dctx, ectx = trig_h.contexts()
+        ttc = RichChkTrigTranscoder()
+        for i in list(range(27)) + [None]:
+            flags = [1 if (i is None and j % 2 == 0) or j == i else 0 for j in range(27)]
+            t = DecodedTrigger(_conditions=[], _actions=[], _player_execution=DecodedPlayerExecution(_execution_flags=0, _player_flags=list(flags), _current_action_index=0))
+            out.case("trigger-owner-byte", bytes(flags))
+            try:
+                back = ttc.encode(ttc.decode(DecodedTrigSection(_triggers=[t]), dctx), ectx).triggers[0].player_execution.player_flags
+                got = [int(bool(x)) for x in back]
+            except Exception as ex:  # noqa: BLE001
+                got = "ERR " + err_class(ex)
+            if got != flags:
+                out.violations.append({"oracle": "player / group number i of a trigger's owner list is byte i of the 27 owner bytes, decoding and encoding", "owner_bytes": flags, "got": got})
+    except ImportError as ex:
+        out.notes.append("owner-byte probe not run: %s" % ex)
+
